@@ -44,6 +44,8 @@ type Monitor struct {
 	ChildTimeout func(tier string) time.Duration
 	// Env adds environment variables for children.
 	Env []string
+	// Aggregate, if set, judges the merged counters of the whole run (population-level oracles).
+	Aggregate func(tier string, counters map[string]int64) []Violation
 }
 
 // Violation is one recorded spec violation.
